@@ -27,7 +27,7 @@ pub fn def() -> PropDef {
     PropDef {
         id: "C06",
         level: "fault_enumeration",
-        rule: "every history of <= d operations over {insert a/ab/a\\xff, delete prefix a/'', remote older, remote newer, flush, snapshot-read, remove document, re-create document} (family A) and over {register peer 1/2, set policy 1/2, insert a, remove, re-create, flush} (family B) and, after filling the useful-peer cache to its capacity, over {register a new peer 1/2, the oldest / the newest cached peer again, insert a, flush} (family C) and, after 1100 entries below the prefix 'a' have been made durable, over {insert a, delete prefix a, delete prefix '', insert ab, flush} (family D: one operation supersedes more than a thousand entries) on a file-backed store; family E drives a file-backed store through its store actor: every history of <= d requests over {insert a, insert ab, delete prefix a, flush_store, a pause of 150 ms} issued back to back on one handle, the file copied right after every acknowledged flush must hold exactly the writes acknowledged before it, and so must the file after shutdown; for families A-D a baseline run numbers every store access point (hook at Store::tables/modify); then every placement of <= k 'transaction looks older than the commit delay' answers among the points where a write transaction is open, and in every such run a crash image (copy of the database file, live store untouched) at every access point and after every operation; each distinct image is reopened and must show the reference state after j complete operations with last-acknowledged-flush <= j <= operations-started, with records, by-key index, heads, point lookups, namespaces and authors mutually consistent; non-trivial = distinct (image content, window) pairs whose window spans an unacknowledged or in-progress operation",
+        rule: "every history of <= d operations over {insert a/ab/a\\xff, delete prefix a/'', remote older, remote newer, flush, snapshot-read, remove document, re-create document} (family A) and over {register peer 1/2, set policy 1/2, insert a, remove, re-create, flush} (family B) and, after filling the useful-peer cache to its capacity, over {register a new peer 1/2, the oldest / the newest cached peer again, insert a, flush} (family C) and, after 1100 entries below the prefix 'a' have been made durable, over {insert a, delete prefix a, delete prefix '', insert ab, flush} (family D: one operation supersedes more than a thousand entries) on a file-backed store; family E drives a file-backed store through its store actor: every history of <= d requests over {insert a, insert ab, delete prefix a, flush_store, a pause of 150 ms} issued back to back on one handle, the file copied right after every acknowledged flush must hold exactly the writes acknowledged before it, and so must the file after shutdown; one scenario kills a whole node (Docs engine with a file-backed store) right after its first start and starts it again from the directory as it was; for families A-D a baseline run numbers every store access point (hook at Store::tables/modify); then every placement of <= k 'transaction looks older than the commit delay' answers among the points where a write transaction is open, and in every such run a crash image (copy of the database file, live store untouched) at every access point and after every operation; each distinct image is reopened and must show the reference state after j complete operations with last-acknowledged-flush <= j <= operations-started, with records, by-key index, heads, point lookups, namespaces and authors mutually consistent; non-trivial = distinct (image content, window) pairs whose window spans an unacknowledged or in-progress operation",
         assumptions: &[
             "crash = process kill: the image is what the OS holds for the file at that instant; power loss, torn sectors and crashes inside redb's own commit are redb's contract",
             "an extra age-based commit caused by real elapsed time can only move the recovered state forward inside the accepted window, never raise an alarm",
@@ -726,6 +726,42 @@ fn actor_history(hist: &[AOp]) -> Vec<(&'static str, Value, String)> {
     bad
 }
 
+/// The process is killed right after a node with a file-backed docs store was started for the
+/// first time (within the commit delay, before any request that commits): the directory as it is
+/// at that moment must be one the node can be started from again.
+fn node_first_start() -> Vec<(&'static str, Value, String)> {
+    let mut bad = vec![];
+    let rt = super::live::runtime();
+    let res: anyhow::Result<()> = rt.block_on(async {
+        let dir = tempfile::tempdir()?;
+        let node = super::live::live_node_at(0x79, Some(dir.path())).await?;
+        let image = tempfile::tempdir()?;
+        for f in std::fs::read_dir(dir.path())? {
+            let f = f?;
+            if f.file_type()?.is_file() {
+                std::fs::copy(f.path(), image.path().join(f.file_name()))?;
+            }
+        }
+        let _ = tokio::time::timeout(std::time::Duration::from_secs(10), node.router.shutdown()).await;
+        drop(node);
+        match super::live::live_node_at(0x7a, Some(image.path())).await {
+            Ok(again) => {
+                if let Err(e) = again.docs.api().author_default().await {
+                    bad.push(("reopen_ok", json!({"node": true}), format!("a node restarted from the directory of a node killed right after its first start has no usable default author: {e:#}")));
+                }
+                let _ = tokio::time::timeout(std::time::Duration::from_secs(10), again.router.shutdown()).await;
+            }
+            Err(e) => bad.push(("reopen_ok", json!({"node": true}), format!("a node with a file-backed docs store was killed right after its first start; it cannot be started again from its directory: {e:#}"))),
+        }
+        Ok(())
+    });
+    drop(rt);
+    if let Err(e) = res {
+        bad.push(("MACHINERY", json!({}), format!("node first start scenario: {e:#}")));
+    }
+    bad
+}
+
 fn run_actor_family(ctx: &Ctx, report: &mut Report, ordinal: &mut u64) {
     let depth = if ctx.quick() { 4 } else { 5 };
     for d in 1..=depth {
@@ -761,6 +797,23 @@ fn run_actor_family(ctx: &Ctx, report: &mut Report, ordinal: &mut u64) {
 fn run(ctx: &Ctx, report: &mut Report) {
     crate::util::silence_panics();
     let mut ordinal = 0u64;
+    if ctx.shard == 13 % ctx.of {
+        report.evaluations += 1;
+        report.count("node_killed_right_after_first_start", 1);
+        let case = json!({"node_first_start": true});
+        match catch(node_first_start) {
+            Err(p) => report.violation("no_panic", json!({"node": true}), case, format!("panic: {p}"), 0),
+            Ok(bad) => {
+                for (o, w, d) in bad {
+                    if o == "MACHINERY" {
+                        report.machinery_error(d);
+                    } else {
+                        report.violation(o, w, case.clone(), d, 0);
+                    }
+                }
+            }
+        }
+    }
     run_actor_family(ctx, report, &mut ordinal);
     let fams: Vec<(usize, usize)> = if ctx.quick() {
         vec![(4, 1), (3, 2)]
@@ -822,6 +875,15 @@ fn run(ctx: &Ctx, report: &mut Report) {
 }
 
 fn replay(case: &Value) -> anyhow::Result<(bool, String)> {
+    if case.get("node_first_start").is_some() {
+        return match catch(node_first_start) {
+            Err(p) => Ok((true, format!("panic: {p}"))),
+            Ok(bad) => {
+                let out: String = bad.iter().map(|(o, _, d)| format!("FAILED {o}: {d}\n")).collect();
+                Ok((!bad.is_empty(), format!("node killed right after its first start\n{out}")))
+            }
+        };
+    }
     if let Some(h) = case.get("actor_hist") {
         let hist: Vec<AOp> = serde_json::from_value(h.clone())?;
         return match catch(|| actor_history(&hist)) {
